@@ -89,11 +89,13 @@ def gen_bits(g):
     return out
 
 
-def builtin_syntax(g, mod, allow_bits=True, v1=False):
+def builtin_syntax(g, mod, allow_bits=True, v1=False, asn1_only=False):
     """Syn over a built-in / application type, maybe refined."""
     rng = g.rng
     choices = ['INTEGER', 'Integer32', 'OCTET STRING', 'OBJECT IDENTIFIER', 'Unsigned32', 'Gauge32',
                'Counter32', 'Counter64', 'TimeTicks', 'IpAddress', 'Opaque', 'enum']
+    if asn1_only:
+        choices = ['INTEGER', 'INTEGER', 'OCTET STRING', 'OBJECT IDENTIFIER', 'enum']   # nothing to import
     if allow_bits:
         choices.append('BITS')
     w = rng.choice(choices)
@@ -119,14 +121,15 @@ def builtin_syntax(g, mod, allow_bits=True, v1=False):
     return s
 
 
-def gen_type(g, mod):
-    """a type assignment or TEXTUAL-CONVENTION, possibly derived from an earlier named type"""
+def gen_type(g, mod, plain=False):
+    """a type assignment or TEXTUAL-CONVENTION, possibly derived from an earlier named type;
+    plain: a type assignment over an ASN.1 built-in type, which needs no IMPORTS at all"""
     rng = g.rng
     name = g.uname(mod)
     named = [(m.name, t) for m in g.modules for t in g.types.get(m.name, [])
              if g.importable(mod, m.name, t.name)]
     parent = None
-    if named and rng.random() < g.p.get('p_chain', 0.5):
+    if named and not plain and rng.random() < g.p.get('p_chain', 0.5):
         local = [(mn, t) for mn, t in named if mn == mod.name]
         pool = local if (local and rng.random() < 0.6) else named
         pmod, parent = rng.choice(pool)
@@ -163,7 +166,7 @@ def gen_type(g, mod):
         size_hull = hull(syn.ref) if (syn.ref and syn.ref[0] == 'size') else parent.size_hull
         is_tc_chain = parent.is_tc_chain
     else:
-        syn = builtin_syntax(g, mod, allow_bits=True)
+        syn = builtin_syntax(g, mod, allow_bits=True, asn1_only=plain)
         if 'tags' in g.f and syn.kind == 'type' and syn.written in ('INTEGER', 'OCTET STRING', 'Integer32') \
                 and rng.random() < 0.3:
             syn.tag = (rng.choice(['APPLICATION', 'UNIVERSAL']), rng.randint(0, 30))
@@ -177,7 +180,7 @@ def gen_type(g, mod):
         int_hull = hull(syn.ref) if (syn.ref and syn.ref[0] == 'range') else bounds
         size_hull = hull(syn.ref) if (syn.ref and syn.ref[0] == 'size') else (4, 4) if fixed_ip else (0, 65535)
         is_tc_chain = False
-    make_tc = rng.random() < 0.55
+    make_tc = rng.random() < 0.55 and not plain
     if make_tc and is_tc_chain and 'tc_from_tc' not in g.f:
         make_tc = False         # SMIv2: a TC must not refine another TC (stress switch)
     if make_tc:
